@@ -9,7 +9,7 @@ use std::collections::{BTreeMap, BTreeSet};
 pub const VALID_KINDS: &[&str] = &[
     "swap_decls", "flip_primitive", "add_property", "append_type", "alias_wrap", "touch", "revert", "move_decl", "toggle_export",
 ];
-pub const FILESET_KINDS: &[&str] = &["move_decl", "retarget_import", "create_file", "delete_file", "add_export_star", "foreign_content"];
+pub const FILESET_KINDS: &[&str] = &["move_decl", "retarget_import", "create_file", "delete_file", "add_export_star", "foreign_content", "shadow_file"];
 pub const DAMAGE_KINDS: &[&str] = &["truncate", "drop_line", "stray_token", "unbalance", "garbage"];
 
 /// One run in five uses a synthetic project (seeded type graph) instead of a corpus project.
@@ -435,9 +435,13 @@ pub fn synthetic_project(seed: u64) -> Project {
     // the other files declare a generic of the same name with another shape (same-named types in
     // two files, instantiated with the same arguments)
     let own_generic = use_generic && rng.chance(1, 2);
+    // kinds are drawn up front so that utility types can be applied to object types only
+    let kinds: Vec<usize> = (0..n_types).map(|_| rng.below(10)).collect();
+    let pre_objs: Vec<usize> = (0..n_types).filter(|i| kinds[*i] < 6 || (kinds[*i] == 8 && *i == 0)).collect();
     for i in 0..n_types {
-        let kind = rng.below(10);
+        let kind = kinds[i];
         let r = |rng: &mut Rng| names[rng.below(n_types)].clone();
+        let r_obj = |rng: &mut Rng| if pre_objs.is_empty() || rng.chance(1, 10) { names[rng.below(n_types)].clone() } else { names[*rng.pick(&pre_objs)].clone() };
         let body = if kind < 6 {
             // object with fields
             let nf = rng.range(1, 4);
@@ -452,7 +456,7 @@ pub fn synthetic_project(seed: u64) -> Project {
                     5 => format!("{} | {}", r(&mut rng), r(&mut rng)),
                     6 => format!("[{}, number]", r(&mut rng)),
                     7 => format!("Record<string, {}>", r(&mut rng)),
-                    8 => format!("Partial<{}>", r(&mut rng)),
+                    8 => format!("{}<{}>", ["Partial", "Required", "Readonly"][rng.below(3)], r_obj(&mut rng)),
                     9 if use_generic => {
                         if rng.chance(1, 2) {
                             format!("Box<{}>", ["string", "number", "boolean"][rng.below(3)])
@@ -469,7 +473,7 @@ pub fn synthetic_project(seed: u64) -> Project {
                         2 => "`a.b*c+(${string})?[x]|y^$`".to_string(),
                         3 => "`id-${\"a\" | \"b\"}`".to_string(),
                         // tuples, index signatures, readonly arrays
-                        4 => format!("[string, number?, ...{}[]]", r(&mut rng)),
+                        4 => format!("[string, number, ...{}[]]", r(&mut rng)),
                         5 => format!("{{ [key: string]: {} }}", r(&mut rng)),
                         6 => format!("readonly {}[]", r(&mut rng)),
                         7 if use_enum => "Color.Red".to_string(),
@@ -513,6 +517,42 @@ pub fn synthetic_project(seed: u64) -> Project {
         };
         bodies.push(body);
     }
+    // a few declarations in other syntactic forms: interfaces (with extends), constants used
+    // through typeof / keyof typeof, mapped and conditional types
+    let mut extra_decls: Vec<String> = vec![];
+    let mut extra_keys: Vec<String> = vec![];
+    let objs0: Vec<usize> = (0..n_types).filter(|i| object_fields[*i] > 0).collect();
+    if rng.chance(1, 3) && !objs0.is_empty() {
+        let a = *rng.pick(&objs0);
+        extra_decls.push(format!("export interface IBase {{ id: string; base?: {} }}", names[a]));
+        extra_decls.push(format!("export interface IDerived extends IBase {{ more: {}[]; self?: IDerived }}", names[rng.below(n_types)]));
+        extra_keys.push("IDerived: IDerived".into());
+    }
+    if rng.chance(1, 3) {
+        extra_decls.push("export const CONFIG = { mode: \"fast\", retries: 3, nested: { on: true, tags: [\"a\", \"b\"] } } as const;".into());
+        extra_decls.push("export type Config = typeof CONFIG;".into());
+        extra_decls.push("export type ConfigKey = keyof typeof CONFIG;".into());
+        extra_decls.push("export type Mode = (typeof CONFIG)[\"mode\"];".into());
+        extra_keys.push("Config: Config".into());
+        extra_keys.push("ConfigKey: ConfigKey".into());
+        if rng.chance(1, 2) {
+            extra_keys.push("Mode: Mode".into());
+        }
+    }
+    if rng.chance(1, 3) && !objs0.is_empty() {
+        let a = *rng.pick(&objs0);
+        match rng.below(4) {
+            0 => extra_decls.push(format!("export type Mapped = {{ [K in \"x\" | \"y\"]: {} }};", names[a])),
+            1 => extra_decls.push(format!("export type Mapped = {{ [K in keyof {}]?: string }};", names[a])),
+            2 if rng.chance(1, 4) => extra_decls.push(format!("export type Mapped = {} extends {{ f0: infer U }} ? U : never;", names[a])),
+            2 => extra_decls.push(format!("export type Mapped = Pick<{}, \"f0\"> & {{ extra: number }};", names[a])),
+            _ => extra_decls.push(format!("export type Mapped = {} extends object ? \"obj\" : \"other\";", names[a])),
+        }
+        extra_keys.push("Mapped: Mapped".into());
+    }
+    let in_m1: Vec<&String> = (0..n_types).filter(|i| file_of[*i] == 1).map(|i| &names[i]).collect();
+    let ns_import = n_files >= 2 && !in_m1.is_empty() && rng.chance(1, 3);
+    let ns_members: String = in_m1.iter().take(2).map(|n| format!("M1.{}", n)).collect::<Vec<_>>().join(" | ");
     // type queries evaluated by the semantic engine on (possibly recursive) named types
     let objs: Vec<usize> = (0..n_types).filter(|i| object_fields[*i] > 0).collect();
     let mut queries: Vec<(String, String)> = vec![];
@@ -585,9 +625,20 @@ pub fn synthetic_project(seed: u64) -> Project {
             for (qn, qb) in &queries {
                 src.push_str(&format!("export type {} = {};\n", qn, qb));
             }
+            for d in &extra_decls {
+                src.push_str(d);
+                src.push('\n');
+            }
+            if ns_import {
+                src.push_str(&format!("import * as M1 from \"./m1\";\nexport type ViaNs = {{ first: {} | null }};\n", ns_members));
+            }
             let mut keys: Vec<String> = names.iter().map(|n| format!("{}: {}", n, n)).collect();
             for (qn, _) in &queries {
                 keys.push(format!("{}: {}", qn, qn));
+            }
+            keys.extend(extra_keys.iter().cloned());
+            if ns_import {
+                keys.push("ViaNs: ViaNs".into());
             }
             if rng.chance(1, 2) {
                 keys.push(format!("Inline: {{ a: {}; b: {}[] }}", names[0], names[n_types - 1]));
